@@ -134,7 +134,10 @@ def native_run(prop, cname, cfg, values=None, seed=0, samples=1):
     c = next(c for c in load_contracts(prop) if c.name == cname)
     out = []
     if values is not None:
-        vals = {k: (np.array([_tofloat(x) for x in v]) if isinstance(v, list) else _tofloat(v)) for k, v in values.items()}
+        def _flat(v):
+            return [y for x in v for y in (_flat(x) if isinstance(x, list) else [x])]
+
+        vals = {k: (np.array([_tofloat(x) for x in _flat(v)]) if isinstance(v, list) else _tofloat(v)) for k, v in values.items()}
         vc = VC(prop, cname, cfg, mode="native", values=vals, rtol=c.rtol, atol=c.atol)
         r = vc.run_native(c.fn)
         r["values"] = {k: (np.asarray(v).tolist()) for k, v in vals.items()}
